@@ -41,12 +41,20 @@ SMILES = ['CCO.O', 'CC(=O)[O-].[Na+]', 'C.C', 'CO.CO.O', 'c1ccccc1.O', '[NH4+].[
           'CC(C)O.OC']
 MULTI = ['{[#A].[#B]}.{#A=CCO,#B=O}', '{[#A].[#B].[#A]}.{#A=CO,#B=N}', '{[#A][#B].[#C]}.{#A=[$]CO,#B=[$]CC,#C=O}',
          '{[#A].[#B]}.{#A=CC(=O)[O-],#B=[Na+]}']
-WEIGHTS = [0.5, 2.0, 12.011, 1.008, 0.25, 3, 1, 1]
+# hydrogen-bearing atoms annotated with weight 0 (their hydrogens inherit the 0), alone / several / mixed with fractions;
+# a bead whose weights are ALL zero is outside the domain (division by zero) and skipped
+ZERO_W = ['{[#A][#B]}.{#A=[C;w=0]C[$],#B=[$]CO}', '{[#A]}.{#A=[C;w=0]C[O;w=0]}',
+          '{[#A][#B]}.{#A=[$]C[O;w=0.5],#B=[$][C;w=0][C;w=0.25]}', '{[#A][#B]}.{#A=[C;w=0]C[$],#B=[$][N;w=0]C}',
+          '{[#A][#B][#A]}.{#A=[$][C;w=0]O,#B=[$]C[C;w=0][$]}', '{[#A]}.{#A=[C;w=0]}', '{[#A][#B]}.{#A=[$][N;w=0][C;w=2.5],#B=[$]c1ccccc1}',
+          '{[#A][#B]}.{#A=[O;w=0]C[!],#B=[!]C[C;w=0]}']
+WEIGHTS = [0.5, 2.0, 12.011, 1.008, 0.25, 3, 1, 1, 0]
 
 
 def rand_cgsmiles(rng, small=True):
     """a random resolvable CGsmiles string: chain with optional branch, terminals closed"""
     r = rng.random()
+    if r < 0.1:
+        return rng.choice(ZERO_W)
     if r < 0.2:
         return rng.choice(FIXED)
     if r < 0.3:
@@ -240,6 +248,10 @@ class C18(common.Prop):
              't': [1.0, -2.0, 0.5], 'own': 1},
             {'kind': 'fwd', 's': '{[#A][#B]}.{#A=OC[!],#B=[!]CC}', 'weights': 'random', 'seed': 6, 'embed_first': True,
              't': [0.0, 3.0, 0.0], 'own': 0},
+            {'kind': 'fwd', 's': ZERO_W[0], 'weights': None, 'seed': 8, 't': [1.0, 2.0, -0.5], 'own': 0},
+            {'kind': 'fwd', 's': ZERO_W[1], 'weights': None, 'seed': 9, 't': [-3.0, 0.0, 0.25], 'own': 0},
+            {'kind': 'fwd', 's': ZERO_W[2], 'weights': None, 'seed': 10, 't': [0.5, 0.5, 0.5], 'own': 1, 'embed_first': True},
+            {'kind': 'fwd', 's': ZERO_W[7], 'weights': None, 'seed': 11, 't': [4.0, -1.0, 0.0], 'own': 1},
             {'kind': 'fwd', 's': '{[#A][#B]}.{#A=OC[!],#B=[!]CC}', 'weights': None, 'seed': 4, 't': [10.0, 0.0, -3.25], 'own': 0},
         ]
 
@@ -272,6 +284,8 @@ class C18(common.Prop):
                 out.append(c)
             else:
                 mode = rng.choice(['unit', 'unit', 'random', 'random', 'balanced'])
+                if rng.random() < 0.2:
+                    s, mode = rng.choice(ZERO_W), 'unit'        # the weights the string wrote, some of them 0
                 out.append({'kind': 'fwd', 's': s, 'embed_first': rng.random() < 0.35, 'weights': mode if mode != 'unit' else None,
                             'seed': rng.randrange(10 ** 6),
                             't': [rng.choice([0.0, 1.0, -2.5, rng.uniform(-50, 50)]) for _ in range(3)],
@@ -405,9 +419,23 @@ class C18(common.Prop):
                     g.nodes[a]['weight'] = 1
                 if len(ns) >= 2:
                     g.nodes[ns[0]]['weight'], g.nodes[ns[-1]]['weight'] = 0.5, 1.5
-        beads = [[b, [[a, float(w)] for a, w in nx.get_node_attributes(g, 'weight').items()]] for b, g in beads_g]
-        if any(len(ws) == 0 or any(w <= 0 for _, w in ws) for _, ws in beads):
-            return {'skip': 'empty-or-nonpositive-weights'}     # outside the property's domain
+        # the weights the STRING wrote, read independently of how the implementation reads them: every atom of the
+        # bead's fragment graph counts; a heavy atom has its annotated weight (default 1), a hydrogen the weight of the
+        # atom it is bonded to (C09: hydrogens inherit from their anchor).  With harness-assigned weights
+        # ('random' / 'balanced') the assigned values are used as they are.
+        def string_weight(g, a):
+            d = g.nodes[a]
+            if case.get('weights') in ('random', 'balanced'):
+                return d.get('weight', 1)
+            if d.get('element') == 'H':
+                anchors = [x for x in aa[a] if aa.nodes[x].get('element') != 'H'] if a in aa else []
+                if len(anchors) == 1:
+                    ad = g.nodes[anchors[0]] if anchors[0] in g else aa.nodes[anchors[0]]
+                    return ad.get('weight', 1)
+            return d.get('weight', 1)
+        beads = [[b, [[a, float(string_weight(g, a))] for a in g.nodes]] for b, g in beads_g]
+        if any(len(ws) == 0 or any(w < 0 for _, w in ws) or sum(w for _, w in ws) <= 0 for _, ws in beads):
+            return {'skip': 'empty-negative-or-all-zero-weights'}     # outside the property's domain
         pos0 = {a: np.array([rng.uniform(-20, 20) for _ in range(3)]) for a in aa.nodes}
         t = np.array([float(x) for x in case['t']])
         own = list(cg.nodes)[case['own'] % len(cg)]
@@ -520,6 +548,8 @@ class C18(common.Prop):
         if k == 'round':
             return 'round:%s:%s' % (case['variant'], 'conformer' if case['conf'] else 'no-conformer')
         w1 = all(w == 1 for _, ws in impl['beads'] for _, w in ws)
+        if any(w == 0 for _, ws in impl['beads'] for _, w in ws):
+            return 'fwd:zero-weights%s' % (':history-embed-first' if case.get('embed_first') else '')
         return 'fwd:%s%s' % ('unit-weights' if w1 else 'weights', ':history-embed-first' if case.get('embed_first') else '')
 
     def known_class(self, case, impl, code):
